@@ -12,6 +12,7 @@ Case ==
    uid      |-> cfg.uid, mlen |-> cfg.mlen, served |-> cfg.served, enc |-> cfg.enc, sid |-> cfg.sid,
    unord    |-> cfg.unord, sig |-> cfg.sig, tr |-> cfg.tr, sni |-> cfg.sni,
    ustate   |-> env.ustate, off |-> env.off, rightKey |-> env.rightKey, cache |-> env.cache,
+   admin    |-> env.conf.admin, nb |-> env.conf.nb, probe |-> env.probe,
    tampers  |-> tampers,
    verdict  |-> Expected(pkt),
    api      |-> "admin" \in Verdicts(pkt)]
